@@ -326,7 +326,7 @@ theorem ieee_laws (tab : List (ℚ × ℚ)) : Laws (ieee tab) := by
   · exact rnd_zero _ _
   · intro x y h; rw [roundAway_eq]; exact Rtosc.Auto.roundAway_mono h
   · intro x y h; rw [trunc_eq]; exact Rtosc.Auto.truncInt_mono h
-  · intro x y h; exact logOfTable_mono tab x y h
+  · intro x y _ h; exact logOfTable_mono tab x y h
   · intro x y h; exact h
 
 end Rtosc.Auto.IEEE
